@@ -226,10 +226,28 @@ def concretise(solver, c, w, neg, trunc, extra, e):
             return vals
     return None
 
+def f64_impl_consts(text, consts):
+    """associated consts of `impl RawFloat for f64`: the impl whose from_u64_bits returns f64"""
+    m = re.search(r"^fn (float::<impl at [^>]+>)::from_u64_bits\(_1: u64\) -> f64 \{$", text, re.M)
+    out = {}
+    if not m:
+        return out
+    prefix = m.group(1) + "::"
+    for k, v in consts.items():
+        if k.startswith(prefix) and "::" not in k[len(prefix):]:
+            out[k[len(prefix):]] = v
+    for k, v in consts.items():           # provided (default) consts of the trait
+        if k.startswith("RawFloat::") and k[len("RawFloat::"):] not in out:
+            out[k[len("RawFloat::"):]] = v
+    return out
+
+LEMIRE = ["compute_float", "compute_product_approx", "power", "zero_pow2", "biased_fp_to_float"]
+
 def check_exponents(job):
-    mir_path, exps, tmo, oblig_tmo, interpret, both = job
+    mir_path, exps, tmo, oblig_tmo, interpret, both, lemire_range = job
     text = open(mir_path).read()
     fns, consts = parse_mir(text)
+    f64c = f64_impl_consts(text, consts)
     statics = statics_from(text, parse_allocs(text))
     solver = Solver(tmo, both)
     osolver = Solver(oblig_tmo)
@@ -238,7 +256,10 @@ def check_exponents(job):
            "oblig_unsat": 0, "oblig_unknown": {}, "oblig_sat": [], "queries": 0, "solver_s": 0.0, "fast_exps": [], "cache_hits": 0,
            "opaque_calls": set(), "interpreted": set(), "unsupported": [], "unrealisable": []}
     for e in exps:
-        ip = Interp(fns, consts, statics, interpret)
+        use_lemire = lemire_range is not None and lemire_range[0] <= e <= lemire_range[1]
+        ip = Interp(fns, consts, statics, interpret + (LEMIRE if use_lemire else []))
+        ip.impl_consts = f64c
+        ip.tolerate_unsupported = True
         ctx = Ctx()
         w = ctx.fresh("w", 1, 10 ** 19 - 1)
         neg = ctx.fresh("neg", None, None, "Bool")
@@ -302,7 +323,8 @@ def check_exponents(job):
             res["fast_exps"].append(e)
         # translator validation: run the same MIR concretely and compare with exact rational rounding
         for wv in [1, 2 ** 53 + 1, 2 ** 63, 10 ** 19 - 1] + [rnd.randrange(1, 10 ** 19) for _ in range(4)] + [rnd.randrange(1, 10 ** rnd.randrange(1, 19)) for _ in range(2)]:
-            ipc = Interp(fns, consts, statics, interpret)
+            ipc = Interp(fns, consts, statics, interpret + (LEMIRE if use_lemire else []))
+            ipc.impl_consts = f64c
             try:
                 couts = list(ipc.run_fn(f, [wv, e, False, False, Opq("raw_num")], Ctx()))
             except Unsupported as ex:
@@ -359,6 +381,7 @@ def main():
     ap.add_argument("--jobs", type=int, default=12)
     ap.add_argument("--interpret", default=",".join(INTERPRET))
     ap.add_argument("--out", required=True)
+    ap.add_argument("--lemire", default="", help="lo..hi: also interpret the Eisel-Lemire constructor for exponents in this range")
     ap.add_argument("--both", action="store_true", help="ask both solvers on every rounding query and compare")
     ap.add_argument("--exps", default="", help="comma separated list instead of emin..emax")
     a = ap.parse_args()
@@ -370,8 +393,9 @@ def main():
     exps = [int(x) for x in a.exps.split(',')] if a.exps else list(range(a.emin, a.emax + 1))
     chunks = [exps[i::a.jobs] for i in range(a.jobs)]
     interpret = a.interpret.split(",")
+    lem = [int(x) for x in a.lemire.split("..")] if a.lemire else None
     with multiprocessing.Pool(a.jobs) as pool:
-        parts = pool.map(check_exponents, [(mir_path, c, a.timeout_ms, a.oblig_timeout_ms, interpret, a.both) for c in chunks if c])
+        parts = pool.map(check_exponents, [(mir_path, c, a.timeout_ms, a.oblig_timeout_ms, interpret, a.both, lem) for c in chunks if c])
     tot = {"violations": [], "unknown": [], "errors": [], "unsupported": [], "oblig_sat": [], "oblig_unknown": {},
            "opaque_calls": set(), "interpreted": set()}
     for k in ("decided_returns", "opaque_returns", "err_returns", "paths", "oblig_unsat", "queries", "solver_s", "cache_hits"):
